@@ -1,12 +1,24 @@
-//! C24 — not built yet.
+//! C24 — frame conflicts are ordered and every frame edge is justified.
+//!
+//! Modes: `C24` (blocks: MC_BlockGraph cases / block traces, judged by the C24 predicates of c22.rs) and
+//! `C24.queue` (the DependencyQueue driven through the verif hook against MC_DepQueue cases / queue traces).
+//! All code is shared with C22 (harness/src/props/c22.rs).
 use crate::runner::{Outcome, Summary};
 use crate::Ctx;
 use serde_json::Value;
 
-pub fn replay(_ctx: &Ctx, _case: &Value) -> Outcome {
-    panic!("C24: replay not implemented")
+pub fn replay(ctx: &Ctx, case: &Value) -> Outcome {
+    if ctx.mode.ends_with(".queue") {
+        super::c22::replay_queue(ctx, case)
+    } else {
+        super::c22::replay_block(ctx, case)
+    }
 }
 
-pub fn drive(_ctx: &Ctx) -> Summary {
-    panic!("C24: drive not implemented")
+pub fn drive(ctx: &Ctx) -> Summary {
+    if ctx.mode.ends_with(".queue") {
+        super::c22::drive_queue(ctx)
+    } else {
+        super::c22::drive_blocks(ctx)
+    }
 }
